@@ -5,7 +5,7 @@ the guards and offsets of expln, the sign of the squash correction)."""
 FILE = "stable_baselines3/common/distributions.py"
 SPECS = [
     dict(
-        name="dist_sum_per_row", qual="sum_independent_dims", start=r"^if len\(tensor.shape\) > 1", end=None, kind="test",
+        name="dist_sum_per_row", qual="sum_independent_dims", start=r"^if len\(tensor\.shape\)", end=None, kind="test",
         inputs=[("rank", "Z")], subst={"len(tensor.shape)": "rank"},
     ),
     dict(
@@ -19,13 +19,13 @@ SPECS = [
         outputs=[("safe_log_std", "Q"), ("std", "Q")],
     ),
     dict(
-        name="dist_squash_update", qual="SquashedDiagGaussianDistribution.log_prob", start=r"^log_prob -= ", end=None,
+        name="dist_squash_update", qual="SquashedDiagGaussianDistribution.log_prob", start=r"^log_prob [-+*/]= ", end=None,
         inputs=[("log_prob", "Q"), ("corr", "Q")],
         subst={"th.sum(th.log(1 - actions ** 2 + self.epsilon), dim=1)": "corr"},
         outputs=[("log_prob", "Q")],
     ),
     dict(
-        name="dist_gsde_squash_update", qual="StateDependentNoiseDistribution.log_prob", start=r"^log_prob -= ", end=None,
+        name="dist_gsde_squash_update", qual="StateDependentNoiseDistribution.log_prob", start=r"^log_prob [-+*/]= ", end=None,
         inputs=[("log_prob", "Q"), ("corr", "Q")],
         subst={"th.sum(self.bijector.log_prob_correction(gaussian_actions), dim=1)": "corr"},
         outputs=[("log_prob", "Q")],
